@@ -51,7 +51,7 @@ type c13 struct {
 	m *Module
 
 	parent, prev, next, first, last, index, opcode, pool, head *types.Var
-	newObject, appendM, appendAfter, detach, free, objectAt   *ssa.Function
+	newObject, appendM, appendAfter, detach, free, objectAt    *ssa.Function
 	invalid, freed                                             uint64
 	objT                                                       *types.Named
 }
